@@ -150,6 +150,14 @@ func runHandleHist(hh *hHist, root string, tw *TraceWriter) {
 			}
 			_, err := l.Publish(batch)
 			x.emit("hpublish", map[string]any{"id": op.ID, "err": errClass(err)})
+			if mode[op.ID] == "rw" && err == nil && (i+hh.ID)%4 == 3 {
+				// the writer deletes the newest message: a hole at the end, an EMPTY head segment behind it (layouts in
+				// which a read-only handle, which has no writer, has to answer like the read-write handle)
+				if nx, nerr := l.NextOffset(); nerr == nil && nx > 0 {
+					_, _, derr := l.Delete(map[int64]struct{}{nx - 1: {}})
+					x.emit("hdelete", map[string]any{"id": op.ID, "err": errClass(derr)})
+				}
+			}
 			if mode[op.ID] == "rw" {
 				lastRW, lastRWSha = dj(l), "dirty"
 			}
